@@ -16,6 +16,7 @@ type Features struct {
 	BigFloat     bool // any big.Float
 	PtrArray     bool // an array type [N]*T (or of another pointer-shaped element)
 	BadUTF8      bool // a string that is not valid UTF-8
+	LaxUTF8      bool // a string that is not valid UTF-8 but has well-formed lead/continuation structure (overlong, surrogate, > U+10FFFF)
 	BigValue     bool // big.Int/Float/Rat held by value
 	Types        map[string]bool
 	NonZeroLeaf  bool
@@ -90,6 +91,9 @@ func walk(v reflect.Value, f *Features, depth int, seen map[uintptr]bool) {
 	case reflect.String:
 		if !validUTF8(v.String()) {
 			f.BadUTF8 = true
+			if StructurallyUTF8(v.String()) {
+				f.LaxUTF8 = true
+			}
 		}
 		if v.Len() > 0 {
 			f.NonZeroLeaf = true
@@ -194,4 +198,31 @@ func typeHas(t reflect.Type, pred func(reflect.Type) bool, seen map[reflect.Type
 		}
 	}
 	return false
+}
+
+// StructurallyUTF8 reports whether s consists of lead bytes followed by the right number of
+// continuation bytes, without checking for overlong forms, surrogates or values above U+10FFFF.
+func StructurallyUTF8(s string) bool {
+	c := 0
+	for i := 0; i < len(s); i++ {
+		a := s[i]
+		if c == 0 {
+			switch {
+			case a&0xe0 == 0xc0:
+				c = 1
+			case a&0xf0 == 0xe0:
+				c = 2
+			case a&0xf8 == 0xf0:
+				c = 3
+			case a&0x80 == 0x80:
+				return false
+			}
+		} else {
+			if a&0xc0 != 0x80 {
+				return false
+			}
+			c--
+		}
+	}
+	return c == 0
 }
